@@ -198,6 +198,22 @@ func runC09(r *ev.Run) {
 						// Flush must persist frozen memtables too
 						s.VerifRotate()
 						log = append(log, "rotate")
+					case 2:
+						// Train() through the store while documents are unflushed (flat / hnsw templates: a no-op for the
+						// template; the store replaces its writable memtable, whose documents must still be persisted)
+						if p.VecKind == "flat" || p.VecKind == "hnsw" {
+							sample := make([][]float32, 4)
+							for i := range sample {
+								sample[i] = make([]float32, p.Dim)
+								sample[i][i%p.Dim] = 1
+							}
+							err := s.Train(sample)
+							log = append(log, fmt.Sprintf("Train -> %v", err))
+							if err != nil {
+								rep("store.train-error", err.Error())
+							}
+							r.Count("ops:train-with-unflushed-documents", 1)
+						}
 					case 1:
 						// injected I/O fault: the next segment's <comp> file cannot be created. Flush must say so (or
 						// succeed for real); once the fault is gone a Flush that returns nil must have persisted everything
